@@ -135,13 +135,30 @@ def collect():
                     lock_files.append(os.path.relpath(os.path.join(d, f), REPO))
     # the anchored files first (stable lock numbering), then every other source file of the evaluation-path crates
     lock_files = [r for r in LOCK_FILES if r in lock_files] + [r for r in lock_files if r not in LOCK_FILES]
+    # a function with a build-phase NAME (build* / add_invocable*) that is called from an evaluation-phase function is evaluation phase itself
+    # (seeded change C20_h: evaluate_invocable called a new helper add_invocable_alias that takes a write lock): call sites are attributed
+    # to the nearest preceding `fn`; callers named evaluate* / eval_* / invoke* are evaluation entry points
+    texts = {rel: no_tests(strip(open(os.path.join(REPO, rel), errors='replace').read())) for rel in lock_files}
+    defined = set()
+    for text in texts.values():
+        defined.update(m.group(1) for m in re.finditer(r'\bfn\s+([A-Za-z_][A-Za-z0-9_]*)', text) if re.match(r'^(build.*|add_invocable.*)$', m.group(1)))
+    demoted = set()
+    for name in sorted(defined):
+        for text in texts.values():
+            for m in re.finditer(r'(?<![A-Za-z0-9_])%s\s*\(' % re.escape(name), text):
+                if re.search(r'\bfn\s+$', text[max(0, m.start() - 4):m.start()]):
+                    continue
+                fns = re.findall(r'\bfn\s+([A-Za-z_][A-Za-z0-9_]*)', text[:m.start()])
+                caller = fns[-1] if fns else ''
+                if re.match(r'^(evaluate|eval_|invoke)', caller):      # called from an evaluation entry point: evaluation phase whatever its name
+                    demoted.add(name)
     for rel in lock_files:
         p = os.path.join(REPO, rel)
-        text = no_tests(strip(open(p, errors='replace').read()))
+        text = texts[rel]
         for pos, (fn, clo, kind) in sorted(scopes(text).items()):
             recv = receiver(text, pos)
             lid = locks.setdefault(recv, len(locks))
-            evalp = clo or not BUILD_FN.match(fn or '')
+            evalp = clo or not BUILD_FN.match(fn or '') or fn in demoted
             is_write = kind in ('write', 'lock', 'try_write', 'try_lock')
             sites.append((rel, line_of(text, pos), 'SLock %s %d' % ('true' if is_write else 'false', lid), evalp, fn))
         # shared mutable state held in a struct: a field whose type allows mutation through a shared reference from several threads
